@@ -9,7 +9,7 @@ open Lean
 
 /-- `edge_upper_bounds_dict`: the edge's own flow value when the edge has the attribute, `w_max`
 otherwise (synthetic edges and ignored edges without the attribute); afterwards the parent class
-caps the edges outside SCCs to 1 -/
+caps the edges outside SCCs to 1 and floors the bounds of the SCC edges (fix fcfd0b0) -/
 def kfdcBounds (inp : WalkInput) : List (Edge × Rat) :=
   let wm := inp.wmax false
   capBounds inp.st.g fun e => (inp.fOpt e).getD wm
